@@ -24,6 +24,10 @@ WORLDS = {
              {'a': 'A', 'b1': 'B', 'b2': 'B', 'c': 'C'}),
     'diamond': ({'A': (), 'M': (), 'B': ('A',), 'C': ('A', 'M'), 'D': ('B', 'C')},
                 {'b1': 'B', 'd1': 'D', 'd2': 'D', 'c': 'C'}),
+    # three levels: what is shared between instances of the most derived class
+    # has to follow a re-declaration two levels up
+    'chain3': ({'A': (), 'B': ('A',), 'C': ('B',)},
+               {'c1': 'C', 'c2': 'C'}),
     # B lists A both indirectly (through C) and directly
     'redundant-base': ({'A': (), 'C': ('A',), 'B': ('C', 'A')},
                        {'a': 'A', 'b1': 'B', 'b2': 'B', 'c': 'C'}),
@@ -430,6 +434,7 @@ CFG = {
     # class declarations only, one level deeper: what a class keeps after its
     # bases were re-declared depends on the order of four or more declarations
     'redundant-base': dict(world='redundant-base', sub='B', kill=['b1'], cls_subjects=['B']),
+    'chain3': dict(world='chain3', sub='C', kill=['c1'], cls_subjects=[], extras=False),
     'tree-classes': dict(world='tree', sub='B', kill=[], cls_subjects=[], extras=False,
                          focus=['A', 'B', 'b1']),
 }
@@ -443,11 +448,13 @@ def run(ctx):
         plan = [('tree', 3, ['b2'], 1),
                 ('diamond', 2, ['D', 'd2'], 1),
                 ('redundant-base', 2, ['C', 'B', 'b2'], 1),
+                ('chain3', 3, ['c2'], 1),
                 ('tree-classes', 4, None, 0)]
     else:
         plan = [('tree', 4, ['B', 'b2'], 1),
                 ('diamond', 3, ['C', 'D', 'd2'], 1),
                 ('redundant-base', 3, ['C', 'B', 'b2'], 1),
+                ('chain3', 4, ['c2'], 1),
                 ('tree-classes', 5, None, 0)]
     if 'depth' in ctx.opts:
         plan = [(p[0], int(ctx.opts['depth']), p[2], int(ctx.opts.get('extra', p[3])))
